@@ -220,16 +220,16 @@ def build_harness(target="dirkdrv"):
     hdir = os.path.join(VERIF, "harness")
     import fcntl
     scratch = None
-    if REPO != "/repo":
-        # the harness module replaces the dirk module by /repo: build a private copy that points at the other tree
-        scratch = os.path.join(BUILD, "harness.%d" % os.getpid())
-        shutil.rmtree(scratch, ignore_errors=True)
-        shutil.copytree(hdir, scratch)
-        gm = open(os.path.join(scratch, "go.mod")).read().replace("=> /repo", "=> " + REPO)
-        open(os.path.join(scratch, "go.mod"), "w").write(gm)
-        hdir = scratch
     with open(os.path.join(BUILD, ".lock"), "w") as lk:
         fcntl.flock(lk, fcntl.LOCK_EX)      # several checks may run at the same time
+        if REPO != "/repo":
+            # the harness module replaces the dirk module by /repo: build a private copy that points at the other tree
+            scratch = os.path.join(BUILD, "harness.%d.%s" % (os.getpid(), target))
+            shutil.rmtree(scratch, ignore_errors=True)
+            shutil.copytree(hdir, scratch)
+            gm = open(os.path.join(scratch, "go.mod")).read().replace("=> /repo", "=> " + REPO)
+            open(os.path.join(scratch, "go.mod"), "w").write(gm)
+            hdir = scratch
         src = open(os.path.join(REPO, "go.sum")).read()
         dst = os.path.join(hdir, "go.sum")
         if not os.path.exists(dst) or open(dst).read() != src:
